@@ -1,7 +1,10 @@
 //@ inject crate=core src=quic/s2n-quic-core/src/frame/ack.rs
 // C05 contract harnesses for the ACK frame (RFC 9000 19.3, types 0x02 / 0x03).  Oracle: `_rfc9000_wire.rs`.
-// level=bounded: <= 3 acknowledged ranges (ACK Range Count <= 2) for enc/dec; arbitrary input <= 20 bytes
-// (<= 8 ranges) for the reference-parser agreement.  All integer fields full-domain.
+// level=bounded: <= 3 acknowledged ranges (ACK Range Count <= 2) for enc/dec, with the integer fields of one frame
+// drawn from one length class of RFC 9000 Table 4 at a time -- all <= 63 (1-byte form) or all >= 2^30 (8-byte form,
+// up to 2^62-1); a frame that mixes the eleven fields over all 4^11 length combinations was tried first and does not
+// finish (1500 s timeout; every field position is then a symbolic offset).  Arbitrary input <= 12 bytes (<= 4 ranges)
+// for the reference-parser agreement, which does mix the lengths.
 //
 // The codec under contract is `Ack<A>::encode` / `Ack<AckRangesDecoder>::decode`, generic in the container `A` that
 // yields the ranges.  The production container (`ack::Ranges`, an interval set on a VecDeque) is C16's subject; the
@@ -21,9 +24,14 @@ fn v(x: u64) -> VarInt {
     VarInt::new(x).unwrap()
 }
 
-fn any_int() -> u64 {
+/// any value of one RFC 9000 Table 4 length class: `wide` = 8-byte form (2^30 ..= 2^62-1), else 1-byte form (0 ..= 63)
+fn any_int_of(wide: bool) -> u64 {
     let x: u64 = kani::any();
-    kani::assume(x <= RFC_VARINT_MAX);
+    if wide {
+        kani::assume(x >= 1073741824 && x <= RFC_VARINT_MAX);
+    } else {
+        kani::assume(x <= 63);
+    }
     x
 }
 
@@ -81,11 +89,14 @@ fn decode_ack<'a>(bytes: &'a mut [u8], ty: u8) -> Option<(Ack<AckRangesDecoder<'
 fn any_ranges() -> ThreeRanges {
     let n: usize = kani::any();
     kani::assume(n >= 1 && n <= 3);
-    let lo: [u64; 3] = [any_int(), any_int(), any_int()];
-    let hi: [u64; 3] = [any_int(), any_int(), any_int()];
+    // packet numbers themselves range over the whole 62-bit domain; the length class constrains the *fields*
+    // (largest, range lengths, gaps), see `fields_in_class`
+    let lo: [u64; 3] = [kani::any(), kani::any(), kani::any()];
+    let hi: [u64; 3] = [kani::any(), kani::any(), kani::any()];
+    kani::assume(hi[0] <= RFC_VARINT_MAX);
     kani::assume(lo[0] <= hi[0]);
-    kani::assume(n < 2 || (lo[1] <= hi[1] && hi[1] + 2 <= lo[0]));
-    kani::assume(n < 3 || (lo[2] <= hi[2] && hi[2] + 2 <= lo[1]));
+    kani::assume(n < 2 || (lo[0] >= 2 && hi[1] <= lo[0] - 2 && lo[1] <= hi[1]));
+    kani::assume(n < 3 || (lo[1] >= 2 && hi[2] <= lo[1] - 2 && lo[2] <= hi[2]));
     ThreeRanges { lo, hi, n }
 }
 
@@ -103,16 +114,36 @@ fn spec_ack(r: &ThreeRanges, delay: u64, ecn: Option<[u64; 3]>, fill: [u8; W]) -
     spec
 }
 
-fn any_ecn() -> Option<[u64; 3]> {
+fn in_class(x: u64, wide: bool) -> bool {
+    if wide {
+        x >= 1073741824 && x <= RFC_VARINT_MAX
+    } else {
+        x <= 63
+    }
+}
+
+/// every integer field the ranges give rise to lies in the chosen length class (ACK Range Count is 0..=2 anyway)
+fn fields_in_class(r: &ThreeRanges, wide: bool) -> bool {
+    let mut ok = in_class(r.hi[0], wide) && in_class(r.hi[0] - r.lo[0], wide);
+    if r.n >= 2 {
+        ok = ok && in_class(r.lo[0] - r.hi[1] - 2, wide) && in_class(r.hi[1] - r.lo[1], wide);
+    }
+    if r.n >= 3 {
+        ok = ok && in_class(r.lo[1] - r.hi[2] - 2, wide) && in_class(r.hi[2] - r.lo[2], wide);
+    }
+    ok
+}
+
+fn any_ecn(wide: bool) -> Option<[u64; 3]> {
     if kani::any() {
-        Some([any_int(), any_int(), any_int()])
+        Some([any_int_of(wide), any_int_of(wide), any_int_of(wide)])
     } else {
         None
     }
 }
 
 // ---- reference parser ---------------------------------------------------------------------------------------
-const REF_MAX_RANGES: usize = 8;
+const REF_MAX_RANGES: usize = 4;
 
 #[derive(Clone, Copy)]
 struct AckView {
@@ -124,7 +155,7 @@ struct AckView {
     hi: [u64; REF_MAX_RANGES],
 }
 
-/// Reference parser for an ACK frame in an input of at most 20 bytes.  None = FRAME_ENCODING_ERROR.
+/// Reference parser for an ACK frame in an input of at most 12 bytes.  None = FRAME_ENCODING_ERROR.
 /// 19.3.1: "If any computed packet number is negative, an endpoint MUST generate a connection error of type
 /// FRAME_ENCODING_ERROR."
 fn rfc_parse_ack(rd: &mut Rd<32>) -> Option<AckView> {
@@ -143,12 +174,12 @@ fn rfc_parse_ack(rd: &mut Rd<32>) -> Option<AckView> {
     let mut hi = [0u64; REF_MAX_RANGES];
     hi[0] = largest;
     lo[0] = largest - first;
-    // every further range occupies at least two bytes, at most 15 bytes are left: more than 7 cannot be present
+    // every further range occupies at least two bytes, at most 7 bytes are left behind the five leading fields: more than 3 cannot be present
     if count > (REF_MAX_RANGES - 1) as u64 {
         return None;
     }
     let mut smallest = lo[0];
-    unroll!(8, k, {
+    unroll!(4, k, {
         if k >= 1 && (k as u64) <= count {
             let gap = rd.varint()?;
             let len = rd.varint()?;
@@ -170,7 +201,7 @@ fn rfc_parse_ack(rd: &mut Rd<32>) -> Option<AckView> {
 }
 
 // ---- enc ----------------------------------------------------------------------------------------------------
-//@ harness props=C05 tier=thorough level=bounded timeout=1500 bound="1..=3 acknowledged ranges (ACK Range Count <= 2), with/without ECN counts; all integers full-domain"
+//@ harness props=C05 tier=thorough level=bounded timeout=1500 bound="1..=3 acknowledged ranges (ACK Range Count <= 2), with/without ECN counts; the fields of one frame all <= 63 or all in 2^30..=2^62-1"
 //@ fn Ack::encode
 //@ fn Ack::tag
 //@ fn encode_ack_range
@@ -178,9 +209,11 @@ fn rfc_parse_ack(rd: &mut Rd<32>) -> Option<AckView> {
 #[kani::proof]
 #[kani::unwind(10)]
 fn vq_c05_frame_ack_enc() {
+    let wide: bool = kani::any();
     let ranges = any_ranges();
-    let delay = any_int();
-    let ecn = any_ecn();
+    kani::assume(fields_in_class(&ranges, wide));
+    let delay = any_int_of(wide);
+    let ecn = any_ecn(wide);
     let spec = spec_ack(&ranges, delay, ecn, [0u8; W]);
     let f = Ack {
         ack_delay: v(delay),
@@ -201,21 +234,24 @@ fn vq_c05_frame_ack_enc() {
     assert!(prefix_eq96(&out, &spec.b, spec.n), "C05/ack.enc/bytes_eq_rfc");
     kani::cover!(ranges.n == 1 && ecn.is_none(), "reach:one_range_no_ecn");
     kani::cover!(ranges.n == 3 && ecn.is_some(), "reach:three_ranges_with_ecn");
-    kani::cover!(ranges.n == 2 && ranges.lo[0] == ranges.hi[1] + 2, "reach:smallest_gap");
-    kani::cover!(ranges.n == 3 && spec.n == 89, "reach:largest_frame");
+    kani::cover!(!wide && ranges.n == 2 && ranges.lo[0] == ranges.hi[1] + 2, "reach:smallest_gap");
+    kani::cover!(ranges.n == 3 && ecn.is_some() && spec.n == 84, "reach:largest_frame");
+    kani::cover!(!wide && ranges.n == 3 && ecn.is_some() && spec.n == 12, "reach:one_byte_fields");
     kani::cover!(true, "reach:end");
 }
 
-//@ harness props=C05 tier=thorough level=bounded timeout=1500 bound="1..=3 acknowledged ranges (ACK Range Count <= 2), with/without ECN counts; all integers full-domain"
+//@ harness props=C05 tier=thorough level=bounded timeout=1500 bound="1..=3 acknowledged ranges (ACK Range Count <= 2), with/without ECN counts; the fields of one frame all <= 63 or all in 2^30..=2^62-1"
 //@ fn Ack::encode
 //@ fn encode_ack_range
 //@ fn EcnCounts::encode
 #[kani::proof]
 #[kani::unwind(10)]
 fn vq_c05_frame_ack_enc_exact() {
+    let wide: bool = kani::any();
     let ranges = any_ranges();
-    let delay = any_int();
-    let ecn = any_ecn();
+    kani::assume(fields_in_class(&ranges, wide));
+    let delay = any_int_of(wide);
+    let ecn = any_ecn(wide);
     let f = Ack {
         ack_delay: v(delay),
         ack_ranges: ranges,
@@ -238,7 +274,7 @@ fn vq_c05_frame_ack_enc_exact() {
 }
 
 // ---- dec ----------------------------------------------------------------------------------------------------
-//@ harness props=C05 tier=thorough level=bounded timeout=1500 bound="1..=3 acknowledged ranges (ACK Range Count <= 2), with/without ECN counts; all integers full-domain; <= 3 trailing bytes"
+//@ harness props=C05 tier=thorough level=bounded timeout=1500 bound="1..=3 acknowledged ranges (ACK Range Count <= 2), with/without ECN counts; the fields of one frame all <= 63 or all in 2^30..=2^62-1; <= 3 trailing bytes"
 //@ fn Ack::decode_parameterized_mut
 //@ fn AckRangesDecoder::decode_parameterized_mut
 //@ fn AckRangesIter::next
@@ -246,9 +282,11 @@ fn vq_c05_frame_ack_enc_exact() {
 #[kani::proof]
 #[kani::unwind(10)]
 fn vq_c05_frame_ack_dec() {
+    let wide: bool = kani::any();
     let ranges = any_ranges();
-    let delay = any_int();
-    let ecn = any_ecn();
+    kani::assume(fields_in_class(&ranges, wide));
+    let delay = any_int_of(wide);
+    let ecn = any_ecn(wide);
     let spec = spec_ack(&ranges, delay, ecn, kani::any());
     let extra: usize = kani::any();
     kani::assume(extra <= 3 && spec.n + extra <= W);
@@ -284,22 +322,23 @@ fn vq_c05_frame_ack_dec() {
     }
     kani::cover!(ranges.n == 1 && ecn.is_none() && extra == 0, "reach:one_range_no_ecn");
     kani::cover!(ranges.n == 3 && ecn.is_some() && extra == 3, "reach:three_ranges_with_ecn_and_trailing_bytes");
-    kani::cover!(ranges.n == 2 && ranges.lo[1] == 0, "reach:down_to_packet_zero");
+    kani::cover!(!wide && ranges.n == 2 && ranges.lo[1] == 0, "reach:down_to_packet_zero");
+    kani::cover!(wide && ranges.n == 3, "reach:three_ranges_eight_byte_fields");
     kani::cover!(true, "reach:end");
 }
 
 // ---- ref ----------------------------------------------------------------------------------------------------
-//@ harness props=C05 tier=thorough level=bounded timeout=1500 bound="arbitrary input of <= 20 bytes with type byte 0x02 or 0x03 (<= 8 ranges)"
+//@ harness props=C05 tier=thorough level=bounded timeout=1500 bound="arbitrary input of <= 12 bytes with type byte 0x02 or 0x03 (<= 4 ranges)"
 //@ fn Ack::decode_parameterized_mut
 //@ fn AckRangesDecoder::decode_parameterized_mut
 //@ fn AckRangesIter::next
 //@ fn EcnCounts::decode
 #[kani::proof]
-#[kani::unwind(12)]
+#[kani::unwind(14)]
 fn vq_c05_frame_ack_ref() {
     let mut bytes: [u8; 32] = kani::any();
     let len: usize = kani::any();
-    kani::assume(len >= 1 && len <= 20);
+    kani::assume(len >= 1 && len <= 12);
     let ecn_type: bool = kani::any();
     bytes[0] = if ecn_type { 0x03 } else { 0x02 };
     let mut rd = Rd::<32>::new(bytes, len);
@@ -316,7 +355,7 @@ fn vq_c05_frame_ack_ref() {
         let mut it = a.ack_ranges();
         assert!(it.len() == want.n, "C05/ack.ref/range_count");
         let mut ranges_ok = true;
-        unroll!(8, k, {
+        unroll!(4, k, {
             let got = it.next();
             if k < want.n {
                 match got {
@@ -331,11 +370,11 @@ fn vq_c05_frame_ack_ref() {
                 ranges_ok = false;
             }
         });
-        assert!(ranges_ok, "C05/ack.ref/ranges_eq_reference");
+        assert!(ranges_ok && it.next().is_none(), "C05/ack.ref/ranges_eq_reference");
     }
     kani::cover!(reference.is_some() && rd.at == len, "reach:exact_fit");
     kani::cover!(reference.map(|w| w.n).unwrap_or(0) >= 3, "reach:three_or_more_ranges");
     kani::cover!(reference.is_some() && ecn_type, "reach:with_ecn");
-    kani::cover!(reference.is_none() && len == 20, "reach:rejected");
+    kani::cover!(reference.is_none() && len == 12, "reach:rejected");
     kani::cover!(true, "reach:end");
 }
